@@ -379,7 +379,10 @@ def rule_cropshared(ctx):
         yield o
 
 
+
+
 RULES = [
+    ("C12.INTERVALFACETS", 3, common.shared("c14", "rule_facets", "C12.INTERVALFACETS", keep=lambda o: o.construct.startswith("util.validate_intervals:"))),
     ("C12.VOCAB", 5, common.shared("c11", "rule_vocab", "C12.VOCAB")),
     ("C12.DHDFORM", 3, common.shared("c02", "rule_dhdform", "C12.DHDFORM")),
     ("C12.MERGELOOKUP", 4, common.shared("c13", "rule_mergelookup", "C12.MERGELOOKUP")),
